@@ -57,11 +57,13 @@ DEEPENED = ["_landmark_groups", "_labels_to_masks"]
 def heap_rules(deepens=None):
     """the five `copy` methods: the world is the heap, `self` a `Src.SelfObj`, the object built a `Src.PObj`"""
     expr = [
-        ("$s.__class__.__new__($s.__class__)", "Src.blank"),
+        ("$s.__class__", "{s}.cls"),                        # one rule per call / attribute: `cls = self.__class__;
+        ("$c.__new__($c)", "(Src.newOf {c})"),              # new = cls.__new__(cls)` and the one-liner are the same
         ("$s.__dict__.items()", "{s}.fs"),
         ("$s.__dict__.copy()", "{s}.fs"),
         ("Copyable.copy($s)", "(copyableCopy rec {STATE} {s})", "bindstate"),
         ("self._callables", '(Src.selfAttr self "_callables")', "bind"),
+        ("self._h_matrix", '(Src.selfAttr self "_h_matrix")', "bind"),
         ("$n._h_matrix", '(Src.getAttr {n} "_h_matrix")', "bind"),
         ("list($x)", "(Src.listCopy {STATE} {x})", "bindstate"),
     ]
@@ -76,7 +78,8 @@ def heap_rules(deepens=None):
         stmt.append(("$n.%s[$k] = $v" % x, "n", '(Src.setItem {STATE} {n} "%s" {k} {v})' % x))
     expr.append(("$v.copy()", "(Src.callCopy rec {STATE} {v})", "bindstate"))
     ret = ".ok ({e}, {STATE})" if deepens is None else '.ok (Src.sealOver {STATE} {e} "%s", {STATE})' % deepens
-    return S.Rules2S(expr=expr, stmt=stmt, ret=ret, catch={"AttributeError": ".error .attr"}, state_name="h")
+    return S.Rules2S(expr=expr, stmt=stmt, ret=ret, catch={"AttributeError": ".error .attr"}, state_name="h",
+                     alias_attrs=DEEPENED)
 
 
 EXC = {"ValueError": ".error .valueError", "KeyError": ".error .keyError", "AttributeError": ".error .attributeError"}
@@ -96,7 +99,7 @@ def world_rules(expr=(), stmt=(), ret="{e}", end=None):
         ("$x[0]", "(List.head? {x})"),
     ]
     return S.Rules2S(expr=list(expr) + common_expr, stmt=stmt, ret=ret, end=end, raise_=None, raise_by=EXC,
-                     state_name="w")
+                     state_name="w", alias_attrs=["_landmark_groups"])
 
 
 HEADER = """/- TRANSLATED by harness/trans_c06.py (harness/py2lean2s.py) from the SOURCE TEXT of the working tree's
